@@ -215,6 +215,18 @@ CHECKS = {
              "inside the solver - same wall as C01). One known finding (the defect the property text names) is listed.",
         ref="DESIGN.md 4 C17",
     ),
+    "C18": dict(
+        text="Path-completion quoting checked by executing its output: for every file name of 1-3 symbols over a pool with one "
+             "representative per character class the quoting code distinguishes (plain, blank, both quote kinds, backslash, $, ~, !, *, "
+             "#, newline, tab, -, non-ASCII) and five opening-quote styles, the text the real _quote_paths inserts is run by the real "
+             "Execer as `cmd <text>` with a recording run_subproc and must deliver exactly [name]; the completion-context analyser is "
+             "run on every command line of up to 3 (quick) / 4 (thorough) symbols at every cursor position and on lines ending in blanks "
+             "after an unclosed quote: no exception, reported prefix and suffix equal the text around the cursor. The solver case-splits "
+             "the finite-domain choices; each class runs on the real code.",
+        note="Finite-domain claim over class representatives. The bash-completion bridge and Completer.complete_line splicing are "
+             "outside. Three known findings (two of them named in the property text) are listed.",
+        ref="DESIGN.md 4 C18",
+    ),
 }
 
 NA = {
